@@ -153,7 +153,6 @@ xx.logger.disabled = True  # logging handlers write to stderr (blocked side effe
 def _survey():
     s = Survey(name="data", id_string="f", title="t")
     s.add_child(InputQuestion(name="q", type="text", label="L"))
-    shims.s3_prefill_xpath(s)
     return s
 
 
